@@ -125,6 +125,41 @@ func registerExternals(w *World) {
 		in := fr.in
 		return in.mk(types.Float64, in.tp.UF("uf_"+args[0].(string), fpSort(64), in.termOf(args[1]))), true
 	}
+	x[zzPkg+".UFU32"] = func(fr *frame, args []value) (value, bool) {
+		in := fr.in
+		var ts []*Term
+		for _, a := range args[1].([]value) {
+			ts = append(ts, in.termOf(a))
+		}
+		return in.mk(types.Uint32, in.tp.UF("uf_"+args[0].(string), bvSort(32), ts...)), true
+	}
+	x[zzPkg+".UFU64"] = func(fr *frame, args []value) (value, bool) {
+		in := fr.in
+		var ts []*Term
+		for _, a := range args[1].([]value) {
+			ts = append(ts, in.termOf(a))
+		}
+		return in.mk(types.Uint64, in.tp.UF("uf_"+args[0].(string), bvSort(64), ts...)), true
+	}
+	x[zzPkg+".Override"] = func(fr *frame, args []value) (value, bool) {
+		name := args[0].(string)
+		f := args[1].(iface)
+		if f.t == nil {
+			delete(fr.in.overrides, name)
+			return nil, true
+		}
+		found := false
+		for _, fn := range []string{name, modPath + "/" + name} {
+			if fr.in.w.funcByName(fn) != nil {
+				fr.in.overrides[fn] = f.v
+				found = true
+			}
+		}
+		if !found {
+			panic(unsupported{"Override: no such function " + name})
+		}
+		return nil, true
+	}
 	x[zzPkg+".Same"] = func(fr *frame, args []value) (value, bool) {
 		// Same(a, b any) bool: structural equality of two values incl. symbolic parts (bit-equality for floats)
 		a, b := args[0].(iface), args[1].(iface)
